@@ -23,6 +23,7 @@ def run(ctx, crate):
     rule_pad_structure(ctx, crate)
     rule_wide_msg(ctx, crate)
     rule_width_always_applied(ctx, crate)
+    rule_width_parsed_exact(ctx, crate)
 
 
 def rule_units(ctx, crate, rule="R-UNITS"):
@@ -319,3 +320,68 @@ def rule_width_always_applied(ctx, crate, rule="R-WIDTH-ALWAYS-APPLIED"):
         ctx.check(ok, rule, "some-builds-field", b.name, "%s:%d" % (b.file, b.term(sb).get("line", 0)), "with a width, a PaddedStringDisplay is built on every path",
                   "with a width, some path does not build the padded field", cfg)
     ctx.floor(rule, n, 28, cfg, "placeholder arms checked for the width step")
+
+
+def rule_width_parsed_exact(ctx, crate, rule="R-WIDTH-PARSED-EXACT"):
+    """"{key:W} occupies exactly W columns" for every written W, 0 included: whenever the parser has read width digits it
+    stores `Some(parsed number)` into the placeholder — the value cannot be turned into "no width" (None) on the way, which
+    format_state would then render unpadded / untruncated (or with the default bar width)."""
+    cfg = crate.config
+    b = K.find_one(ctx, crate, rule, r"style::Template::from_str_with_tab_width")
+    if not b:
+        return
+    n = 0
+    for i, j, s in b.assigns():
+        if s["lhs"]["p"] != ["*"]:
+            continue
+        l = s["lhs"]["l"]
+        ds = [d for d in b.defs().get(l, ()) if d["kind"] == "assign" and d["rv"]["k"] == "ref"]
+        if not ds or not any(f[0] == "style::TemplatePart" and f[2] == "width" for d in ds for f in place_fields(d["rv"]["place"])):
+            continue
+        n += 1
+        rv = s["rv"]
+        src = rv
+        if rv["k"] == "use":
+            dl = operand_local(rv["op"])
+            dd = [d for d in b.defs().get(dl, ()) if d["kind"] in ("assign", "call")] if dl is not None else []
+            if len(dd) == 1 and dd[0]["kind"] == "assign":
+                src = dd[0]["rv"]
+            elif len(dd) == 1:
+                src = {"k": "call", "call": dd[0]["call"]}
+        is_some = src.get("k") == "agg" and src.get("variant") == "Some"
+        loc = "%s:%d" % (b.file, s.get("line", 0))
+        ctx.check(is_some, rule, "stores-some#%d" % (n - 1), b.name, loc, "the parsed width is stored as Some(width)",
+                  "the parsed width goes through %s before it is stored: a written width (e.g. 0) can become `None`, i.e. no width at all" % (
+                      src["call"].path if src.get("k") == "call" else "a non-Some value"), cfg)
+        if is_some:
+            # walk the value chain back from the payload: only `?`, map_err and plain conversions may sit between the
+            # payload and str::parse
+            parsed, other, cur, steps = False, [], src["ops"][0], 0
+            while cur is not None and steps < 12:
+                steps += 1
+                cl = operand_local(cur)
+                dd = [d for d in b.defs().get(cl, ()) if d["kind"] in ("assign", "call")] if cl is not None else []
+                if len(dd) != 1:
+                    other.append("merge of several values")
+                    break
+                d = dd[0]
+                if d["kind"] == "assign":
+                    rv2 = d["rv"]
+                    if rv2["k"] in ("use", "cast"):
+                        cur = rv2["op"]
+                    else:
+                        other.append(rv2["k"])
+                        break
+                else:
+                    c = d["call"]
+                    if c.matches(r"core::str::<impl str>::parse"):
+                        parsed = True
+                        break
+                    if c.matches(r"std::result::Result::<T, E>::map_err", K.TRY_BRANCH, r"std::convert::(From::from|Into::into)") and c.args:
+                        cur = c.args[0]
+                    else:
+                        other.append(c.path)
+                        break
+            ctx.check(parsed and not other, rule, "payload-is-parse#%d" % (n - 1), b.name, loc, "the stored width is the number parsed from the digits, unmodified",
+                      "the stored width is not the plain parse of the digits (%s)" % other[:2], cfg)
+    ctx.floor(rule, n, 1, cfg, "stores to a placeholder's width in the parser")
